@@ -388,3 +388,52 @@ def adjoint_representations_of_complex_representations(tier, rng, rep):
         rep.case(key=(t,), nontrivial=cplx, sample=inp if t == 0 else None)
         if len(rep.failures) >= 3:
             return
+
+
+@bounded(P, "multi_character_generator_names", functions=["geometry_tools/utils/words.py:asym_gens", "geometry_tools/utils/words.py:invert_gen", R + "Representation.coboundary_matrix",
+                                                          R + "Representation.differential", R + "Representation.tensor_product", R + "Representation.compose", R + "Representation.element"],
+         note="representations with parse_simple=False whose generator names are multi-character: 'b1', 'gen', names starting with a digit or an underscore ('1a', '_d', '2xy'): every generator "
+              "is a generator for num_gens, the coboundary matrix (one block I - rho(g) each), tensor products and composed representations; inverse letters map to inverses")
+def multi_character_generator_names(tier, rng, rep):
+    N = 40 if tier == 'thorough' else 10
+    pools = [["a", "b1"], ["1a", "2b"], ["_d", "x"], ["gen", "1a", "_d"], ["a1", "2xy", "b"]]
+    rep.rule = f"name sets {pools}; n = 2, 3; random integer matrices with non-zero determinant; words written with '*' separators"
+    rep.bound = f"{N} rounds x {len(pools)} name sets"
+    inv_name = lambda g: g.upper() if g.lower() == g else g.lower()
+    for t in range(N):
+        n = 2 + t % 2
+        for names in pools:
+            def rmat():
+                while True:
+                    M = rng.integers(-2, 3, size=(n, n)).astype(float)
+                    if abs(np.linalg.det(M)) > 0.5:
+                        return M
+            m1, m2 = {g: rmat() for g in names}, {g: rmat() for g in names}
+            inp = {"names": names, "n": n, "matrices": {g: m1[g].tolist() for g in names}}
+
+            def body():
+                R1, R2 = Representation(parse_simple=False), Representation(parse_simple=False)
+                for g in names:
+                    R1[g] = m1[g].copy(); R2[g] = m2[g].copy()
+                I = np.identity(n)
+                if R1.num_gens != len(names):
+                    rep.fail("every_name_is_a_generator", f"num_gens = {R1.num_gens} for the names {names}", inp); return
+                for g in names:
+                    if not np.allclose(R1.element(inv_name(g), parse_simple=False), np.linalg.inv(m1[g])) or not np.allclose(R1.element(g + "*" + inv_name(g), parse_simple=False), I):
+                        rep.fail("inverse_letter_is_inverse_matrix", g, inp); return
+                cob = np.asarray(R1.coboundary_matrix(), dtype=float)
+                want = np.concatenate([I - m1[g] for g in R1.generators if g in names], axis=0)
+                if cob.shape != want.shape or not np.allclose(cob, want):
+                    rep.fail("coboundary_matrix_blocks", f"shape {cob.shape}, expected one block I - rho(g) for each of {names} (shape {want.shape})", inp); return
+                T = R1.tensor_product(R2)
+                C = R1.compose(lambda M: np.linalg.inv(M).T, compute_inverses=True)
+                for g in names:
+                    for letter, a, b in ((g, m1[g], m2[g]), (inv_name(g), np.linalg.inv(m1[g]), np.linalg.inv(m2[g]))):
+                        if not np.allclose(T.element(letter, parse_simple=False), np.kron(a, b)):
+                            rep.fail("tensor_product_of_every_generator", f"{letter}", inp); return
+                        if not np.allclose(C.element(letter, parse_simple=False), np.linalg.inv(a).T):
+                            rep.fail("composed_representation_of_every_generator", f"{letter}", inp); return
+            rep.attempt("representation_runs", inp, body)
+            rep.case(key=(t, tuple(names)), nontrivial=any(not g[0].isalpha() for g in names), sample=inp if (t, tuple(names)) == (0, ("1a", "2b")) else None)
+            if len(rep.failures) >= 3:
+                return
